@@ -58,32 +58,11 @@ def unbalanced_source(text):
 def gen(run):
     quick = run.tier == "quick"
     cases = []
-    # A: contexts
-    from vf.checks.c15 import CONTEXTS
-    for d in core.cube(run, [("ctx", [("plain", "{}")] + CONTEXTS), ("stmt", K.CATALOGUE), ("opts", [{}, FULL])]):
-        name, stmt, alt = d["stmt"]
-        text = d["ctx"][1].replace("{}", stmt)
-        cases.append({"text": K.program_for([text]), "opts": d["opts"], "origin": f"ctx:{d['ctx'][0]}:{name}"})
-    # B: templates x shapes
-    for name, body, after in K.TEMPLATES:
-        sl = K.slots(body)
-        defaults = ["7" if s == "n" else '"X"' for s in sl]
-        combos = []
-        for i, s in enumerate(sl):
-            for sn, st in (K.NUM_SHAPES if s == "n" else K.STR_SHAPES):
-                sh = list(defaults)
-                sh[i] = st
-                combos.append((f"slot{i}={sn}", sh))
-        for sn_n, st_n in K.NUM_SHAPES:
-            for sn_s, st_s in (K.STR_SHAPES if "s" in sl else [("-", "")]):
-                if "n" not in sl and sn_n != "lit":
-                    continue
-                combos.append((f"all={sn_n}/{sn_s}", [st_n if s == "n" else st_s for s in sl]))
-        run.states += 1 + len(combos)
-        run.transitions += len(combos)
-        for how, sh in combos:
-            for opts in ({}, FULL):
-                cases.append({"text": K.template_program(K.fill(body, sh), after), "opts": opts, "origin": f"tpl:{name}:{how}"})
+    # A+B: catalogue x contexts, templates x operand shapes, templates x key shapes x contexts
+    from vf.gen import spaces
+    for text, origin in spaces.all_programs(run):
+        for opts in ({}, FULL):
+            cases.append({"text": text, "opts": opts, "origin": origin})
     # C: ordered pairs
     cat = K.CATALOGUE if not quick else [c for c in K.CATALOGUE]
     n = 0
